@@ -86,6 +86,15 @@ func describe(s *sg.Schema, caseDir string) (*gendrv.Desc, map[string]*sg.Pkg) {
 				d.Defs = append(d.Defs, gendrv.DefD{Key: key, Kind: "message", Go: def.Name, Fields: fieldDescs(def.Fields)})
 				owner[key] = p
 			case sg.DService, sg.DSubservice:
+				if def.Kind == sg.DService {
+					sd := gendrv.DefD{Key: key, Kind: "service", Go: def.Name}
+					for _, m := range def.Methods {
+						sub := m.OutType != nil && m.OutType.Ref != nil && (m.OutType.Ref.Kind == sg.DSubservice || m.OutType.Ref.Kind == sg.DService)
+						sd.Methods = append(sd.Methods, gendrv.MethodD{Name: m.Name, Go: goName(m.Name), Unary: !m.Oneway && m.ChanIn == nil && m.ChanOut == nil && !sub})
+					}
+					d.Defs = append(d.Defs, sd)
+					owner[key] = p
+				}
 				for _, m := range def.Methods {
 					if len(m.InFields) > 0 {
 						name := def.Name + goName(m.Name) + "Request"
@@ -111,8 +120,13 @@ func registrySource(d *gendrv.Desc, owner map[string]*sg.Pkg, s *sg.Schema) stri
 	var b strings.Builder
 	b.WriteString("package reg\n\nimport (\n\t\"verifharness/engine/gendrv\"\n")
 	used := map[*sg.Pkg]bool{}
+	services := false
 	for _, def := range d.Defs {
 		used[owner[def.Key]] = true
+		services = services || def.Kind == "service"
+	}
+	if services {
+		b.WriteString("\t\"github.com/basecomplextech/spec/rpc\"\n")
 	}
 	for i, p := range s.Pkgs {
 		if used[p] {
@@ -127,6 +141,10 @@ func registrySource(d *gendrv.Desc, owner map[string]*sg.Pkg, s *sg.Schema) stri
 		switch def.Kind {
 		case "message":
 			fmt.Fprintf(&b, "\t%q: {New: %s.New%sWriter, Open: %s.Open%s, OpenErr: %s.Open%sErr, Parse: %s.Parse%s, Wrap: %s.New%s},\n", def.Key, a, n, a, n, a, n, a, n, a, n)
+		case "service":
+			// the handler is built over a service value without an implementation: a struct that embeds
+			// the (nil) generated service interface satisfies it whatever the method signatures are
+			fmt.Fprintf(&b, "\t%q: {Handler: func() rpc.Handler { return %s.New%sHandler(struct{ %s.%s }{}) }, Client: %s.New%sClient},\n", def.Key, a, n, a, n, a, n)
 		case "struct":
 			fmt.Fprintf(&b, "\t%q: {Zero: %s.%s{}, Open: %s.Open%s, Decode: %s.Decode%s, Encode: %s.Encode%sTo},\n", def.Key, a, n, a, n, a, n, a, n)
 		case "enum":
